@@ -1,5 +1,5 @@
 ---- MODULE MCIdle ----
 EXTENDS IdleGen
-MCPats == {<<"stall">>, <<"blocked">>, <<>>, <<"p">>, <<"p", "p", "p", "p">>, <<"g", "p">>, <<"p", "g", "g", "p">>, <<"g", "g", "g", "g">>}
+MCPats == {<<"stall">>, <<"blocked">>, <<"slow">>, <<>>, <<"p">>, <<"p", "p", "p", "p">>, <<"g", "p">>, <<"p", "g", "g", "p">>, <<"g", "g", "g", "g">>}
 MCBases == {-20, 0, 50}
 ====
